@@ -49,6 +49,9 @@ pub fn link_family() -> Vec<(String, AProg)> {
     v.push(("two blocks def A, D".into(), { let mut p = block(0x3000, vec![lst("A", f(1))]); p.extend(block(0x8000, vec![lst("D", fl("A")), st(Nuc::Stringz("x".into()))])); p }));
     v.push(("two blocks around x3002".into(), { let mut p = block(0x3001, vec![st(f(1))]); p.extend(block(0x3003, vec![st(f(2))])); p }));
     v.push(("label at zero C and data".into(), block(0x0000, vec![lst("C", f(0xC0)), st(f(0xC1))])));
+    // scale: 6 externals used 8 times each (48 relocation entries, 6 labels bound by one link) and the file that defines them
+    v.push(("use EXT0-5 x8".into(), { let mut p: AProg = (0..6).map(|e| st(Nuc::External(format!("Ext{e}")))).collect(); let mut body = vec![]; for u in 0..8 { for e in 0..6 { body.push(st(fl(&format!("{}{e}", if u % 2 == 0 { "EXT" } else { "ext" })))); } } p.extend(block(0x9000, body)); p }));
+    v.push(("def EXT0-5".into(), block(0x9100, (0..6).map(|e| lst(&format!("EXT{e}"), f(0x1300 + e))).collect())));
     v.push(("high block".into(), { let mut p = vec![st(Nuc::External("A".into()))]; p.extend(block(0xFDFE, vec![lst("HI", fl("HI")), st(fl("A"))])); p }));
     v
 }
@@ -104,6 +107,15 @@ pub fn obj_family(thorough: bool) -> Vec<ObjCase> {
         if let Ok(o) = ObjectFile::link(lo[i].2.clone(), nd[j].1.clone()) { v.push(ObjCase { desc: format!("link({},nodebug {})", lo[i].0, nd[j].0), obj: o }); }
         if let Ok(o) = ObjectFile::link(nd[j].1.clone(), lo[i].2.clone()) { v.push(ObjCase { desc: format!("link(nodebug {},{})", nd[j].0, lo[i].0), obj: o }); }
     } }
+    // scale family: long labels, hundreds of blocks / labels / statements, long initialized runs, and (under the 16-lines-per-statement gap
+    // style) sources of more than 10^4 and more than 2^16 lines
+    let gap16 = Style::plain().with_secondary(1 + 160 * 4);
+    for (d, p) in &fam.big {
+        if d.contains("declared twice") || d.contains("undefined") { continue; }
+        if let Some((o, _)) = assemble_prog(p, true, &Style::plain()) { v.push(ObjCase { desc: format!("big {d} [debug]"), obj: o }); }
+        if d.contains("blocks") || d.contains("labelled statements") { if let Some((o, _)) = assemble_prog(p, true, &gap16) { v.push(ObjCase { desc: format!("big {d} [debug, 16 comment lines before every statement]"), obj: o }); } }
+        if d.contains("externals") || d.contains("stringz of 5000") { if let Some((o, _)) = assemble_prog(p, false, &Style::plain()) { v.push(ObjCase { desc: format!("big {d} [no debug]"), obj: o }); } }
+    }
     v.push(ObjCase { desc: "ObjectFile::empty()".into(), obj: ObjectFile::empty() });
     v
 }
